@@ -37,8 +37,10 @@ def h_write_unary(it, name, args, fargs, fr, t):
         raise Unsupported("write_unary operand")
     it.events.append(("unary", v))
     r = it.arith("Add", it.cast(v, "u128"), AI("u128", 1, 1), "u128")
-    if r.hi > ivl.tmax("usize"):
+    if r.lo > ivl.tmax("usize"):
         raise Panic("write_unary(u64::MAX)")
+    if r.hi > ivl.tmax("usize"):
+        raise Undecided("write_unary argument may be u64::MAX")
     return mk_variant("std::result::Result", "Ok", [AI("usize", r.lo, r.hi, r.dir, r.aff)])
 
 
@@ -130,7 +132,7 @@ def handlers():
 # ---- plain (picklable) summaries ------------------------------------------------------------------------------------
 def summ(v):
     if isinstance(v, AI):
-        return ("int", v.ty, v.lo, v.hi, v.dir, v.aff if (v.aff is not None and v.dir is not None) else None)
+        return ("int", v.ty, v.lo, v.hi, v.dir, v.aff if (v.aff is not None and v.dir is not None) else None, v.tag, v.aff)
     if isinstance(v, Agg):
         return ("agg", v.variant or v.kind, tuple(summ(f) for f in v.fields))
     return ("opaque", repr(v))
@@ -499,3 +501,256 @@ def run_c18(chk, F, fs, tier):
                 break
         chk.expect("V4.count", key, covered(r["cells"]) and prob is None, "VByte writer %s: %s" % (key, prob), sample={"writer": key, "cells": len(r["cells"])})
         chk.expect("V4.continuation", key, prob is None and cprob is None, "VByte writer %s: %s" % (key, cprob or prob), sample={"writer": key})
+
+
+# ---- C04.D3 / C03.K2: exact fields of the non-table writers, and replay of the reader on them -------------------------------
+def field_configs(tier):
+    """(key, code, params, writer path, reader path, env, extra args, domain hi, refine_const)"""
+    out = []
+    zk = [1, 2, 3, 4, 5, 7, 8] + ([6, 11, 13, 16, 21, 32, 63] if tier == "thorough" else [16])
+    pk = [0, 1, 2, 3, 5, 8] + ([4, 6, 7, 13, 16, 32, 63] if tier == "thorough" else [])
+    rk = [0, 1, 2, 3, 7, 8, 16, 33, 63]
+    us = list(range(1, 20)) + [31, 32, 33, 63, 64, 65, 1000, (1 << 32) - 1, (1 << 32), (1 << 63) + 5, (1 << 64) - 1]
+    for e, en in ((BE, "be"), (LE, "le")):
+        out.append(("f.gamma.%s" % en, "gamma", (), "<B as codes::gamma::GammaWriteParam<%s>>::write_gamma_param" % e,
+                    "<B as codes::gamma::GammaReadParam<%s>>::read_gamma_param" % e, {"E": e, "USE_TABLE": False}, (), U64MAX, True))
+        out.append(("f.delta.%s" % en, "delta", (), "<B as codes::delta::DeltaWriteParam<%s>>::write_delta_param" % e,
+                    "<B as codes::delta::DeltaReadParam<%s>>::read_delta_param" % e, {"E": e, "USE_DELTA_TABLE": False, "USE_GAMMA_TABLE": False}, (), U64MAX, True))
+        for k in zk:
+            out.append(("f.zeta%d.%s" % (k, en), "zeta", (k,), "<B as codes::zeta::ZetaWriteParam<%s>>::write_zeta_param" % e,
+                        "<B as codes::zeta::ZetaReadParam<%s>>::read_zeta_param" % e, {"E": e, "USE_TABLE": False}, (("usize", k),), U64MAX, True))
+        out.append(("f.omega.%s" % en, "omega", (), "codes::omega::OmegaWrite::write_omega", None, {"E": e}, (), U64MAX, True))
+        for k in pk:
+            out.append(("f.pi%d.%s" % (k, en), "pi", (k,), "codes::pi::PiWrite::write_pi", "codes::pi::PiRead::read_pi", {"E": e}, (("usize", k),), U64MAX, True))
+        for k in rk:
+            out.append(("f.rice%d.%s" % (k, en), "rice", (k,), "codes::rice::RiceWrite::write_rice", "codes::rice::RiceRead::read_rice", {"E": e}, (("usize", k),), U64MAX, False))
+        for u in us:
+            out.append(("f.minimal_binary%d.%s" % (u, en), "minimal_binary", (u,), "codes::minimal_binary::MinimalBinaryWrite::write_minimal_binary",
+                        "codes::minimal_binary::MinimalBinaryRead::read_minimal_binary", {"E": e}, (("u64", u),), u - 1, True))
+    return out
+
+
+def ev_value_at(v, y):
+    """value of an emitted operand at the single argument y, when the abstract value determines it"""
+    if not isinstance(v, AI):
+        return None
+    if v.const() is not None:
+        return v.const()
+    if v.aff is not None:
+        return v.aff[0] * y + v.aff[1]        # modular form: right modulo 2^64, enough for fields of <= 64 bits
+    if v.tag is not None:
+        src = v.tag[1] * y + v.tag[2]
+        return src >> v.tag[3] if v.tag[0] == "shr" else src & ((1 << v.tag[3]) - 1) if v.tag[0] == "low" else (src >> v.tag[3]) << v.tag[3]
+    return None
+
+
+def ev_matches(ev, f, y0, y1):
+    """does the emitted primitive `ev` equal the documented field f for every n in [y0, y1]?"""
+    import refspec
+    small = y1 - y0 < 16
+    if f[0] == "U":
+        if ev[0] != "unary":
+            return False
+        v = ev[1]
+        want = f[1]
+        if isinstance(want, int):
+            return isinstance(v, AI) and v.const() == want
+        if small:
+            return all(ev_value_at(v, y) == refspec.value_at(want, y) for y in range(y0, y1 + 1))
+        if want[0] == "shr":
+            return v.tag == ("shr", want[1], want[2], want[3]) or (want[3] == 0 and v.aff is not None and v.dir is not None and tuple(v.aff) == (want[1], want[2]))
+        return False
+    if ev[0] != "bits":
+        return False
+    v, n = ev[1], ev[2]
+    w = f[2]
+    if not isinstance(n, AI) or n.const() != w:
+        return False
+    if w == 0:
+        return True
+    val = f[1]
+    m = 1 << w
+    if small:
+        for y in range(y0, y1 + 1):
+            c = ev_value_at(v, y)
+            if c is None or (c - refspec.value_at(val, y)) % m != 0:
+                return False
+        return True
+    if val[0] == "aff":
+        if v.aff is None:
+            return False
+        return (v.aff[0] - val[1]) % m == 0 and (v.aff[1] - val[2]) % m == 0
+    # shr / low of an affine source
+    if val[1] == 0:
+        c = v.const()
+        return c is not None and (c - refspec.value_at(val, y0)) % m == 0
+    if v.tag is not None and v.tag[0] == val[0] and v.tag[3] == val[3]:
+        mm = 1 << (w + val[3]) if val[0] == "shr" else 1 << val[3]
+        return (v.tag[1] - val[1]) % mm == 0 and (v.tag[2] - val[2]) % mm == 0
+    return False
+
+
+def fmt_ev(ev):
+    if ev[0] == "unary":
+        return "unary(%r)" % (ev[1],)
+    return "%s(%r%s, %r)" % (ev[0], ev[1], (" tag%s" % (ev[1].tag,)) if getattr(ev[1], "tag", None) else "", ev[2] if len(ev) > 2 else "")
+
+
+def compare_fields(code, en, params, c, y0, y1, depth=0):
+    """problems of cell c restricted to [y0, y1] against the documented structure; splits where the documentation changes shape"""
+    import refspec
+    if code == "rice":
+        k = params[0]
+        fl = [("U", ("shr", 1, 0, k)), ("B", ("aff", 1, 0), k)]
+    else:
+        fl = refspec.fields(code, en, params, y0, y1)
+    if fl is None:
+        if y0 == y1 or depth > 70:
+            return ["no documented codeword structure for n = %d" % y0], 0
+        mid = (y0 + y1) // 2
+        p1, n1 = compare_fields(code, en, params, c, y0, mid, depth + 1)
+        if p1:
+            return p1, n1
+        p2, n2 = compare_fields(code, en, params, c, mid + 1, y1, depth + 1)
+        return p2, n1 + n2
+    if fl == refspec.EXEMPT:
+        return [], 0
+    evs = c.events
+    if len(evs) != len(fl) or not all(ev_matches(ev, f, y0, y1) for ev, f in zip(evs, fl)):
+        return ["for n in [%d, %d] the writer emits %s; the documented codeword is %s" % (y0, y1, [fmt_ev(e) for e in evs], fl)], 1
+    return [], 1
+
+
+def replay_reader(F, body, env, extra, c):
+    """interpret the reader on the cell, feeding it the primitives the writer emitted there; returns a problem or None"""
+    it = ivl.Interp(F, c.y0, c.y1)
+    queue = list(c.events)
+
+    def r_unary(it_, name, args, fargs, fr, t):
+        if not queue or queue[0][0] != "unary":
+            raise Unsupported("reader asks for a unary code where the writer emitted %s" % (fmt_ev(queue[0]) if queue else "nothing"))
+        ev = queue.pop(0)
+        v = ev[1]
+        return mk_variant("std::result::Result", "Ok", [AI("u64", v.lo, v.hi, v.dir, v.aff, v.tag)])
+
+    def r_bits(it_, name, args, fargs, fr, t):
+        n = args[1]
+        if not queue or queue[0][0] != "bits":
+            raise Unsupported("reader asks for %r bits where the writer emitted %s" % (n, fmt_ev(queue[0]) if queue else "nothing"))
+        ev = queue.pop(0)
+        if not isinstance(n, AI) or n.const() is None or n.const() != ev[2].const():
+            raise Unsupported("reader reads %r bits where the writer wrote a %r-bit field" % (n, ev[2]))
+        w = n.const()
+        v = ev[1]
+        if w == 0:
+            r = AI("u64", 0, 0)
+        elif w == 64:
+            r = v
+        else:
+            r = it_.bitop("BitAnd", v, AI("u64", (1 << w) - 1, (1 << w) - 1), "u64") if not (0 <= v.lo and v.hi < (1 << w)) else v
+        return mk_variant("std::result::Result", "Ok", [r])
+
+    hs = handlers()
+    hs["traits::bits::BitRead::read_unary"] = r_unary
+    hs["traits::bits::BitRead::read_bits"] = r_bits
+    for tr in ("codes::gamma::GammaReadParam::read_gamma_param", "codes::delta::DeltaReadParam::read_delta_param", "codes::zeta::ZetaReadParam::read_zeta_param",
+               "codes::minimal_binary::MinimalBinaryRead::read_minimal_binary", "codes::rice::RiceRead::read_rice"):
+        hs[tr] = trait_impl
+    hs["codes::gamma::GammaRead::read_gamma"] = lambda it_, name, args, fargs, fr, t: trait_impl(it_, "codes::gamma::GammaReadParam::read_gamma_param", args, list(fargs) + [False], fr, t)
+    it.handlers = hs
+    it.cfg = {}
+    try:
+        r = it.call_body(body, [STREAM] + [it.const(t, v) for t, v in extra], dict(env), 0)
+    except (Unsupported, Undecided, Panic) as e:
+        return "reader on n in [%d, %d]: %s: %s" % (c.y0, c.y1, type(e).__name__, e)
+    if queue:
+        return "for n in [%d, %d] the reader leaves %d emitted primitives unread (%s)" % (c.y0, c.y1, len(queue), fmt_ev(queue[0]))
+    v = r.fields[0] if isinstance(r, Agg) and r.variant == "Ok" else r
+    if not (isinstance(v, AI) and v.aff is not None and v.dir is not None and tuple(v.aff) == (1, 0)) and not (isinstance(v, AI) and c.y0 == c.y1 and v.const() == c.y0):
+        return "for n in [%d, %d] the reader returns %r, not n" % (c.y0, c.y1, v)
+    return None
+
+
+def _work_fields(job):
+    fs, key, code, params, wpath, rpath, env, extra, hi, refine = job
+    F = _F[fs]
+    en = "be" if env["E"] == BE else "le"
+    try:
+        r = Run(F, key, F.body(wpath), env, extra, {}, receiver=True, hi=hi, refine_const=refine)
+        raw = len(r.cells)
+        r.remerge()
+    except Unsupported as e:
+        return key, {"unsupported": str(e)}
+    except Exception as e:
+        return key, {"unsupported": "internal error: %r" % (e,)}
+    fprob, rprob = [], []
+    pieces = replays = 0
+    dom_bad = None
+    for c in r.cells:
+        if c.status != "ok":
+            if c.y1 <= hi - (1 if hi == U64MAX else 0):
+                dom_bad = "writer fails on [%d, %d]: %s" % (c.y0, c.y1, c.why)
+            continue
+        if not fprob:
+            try:
+                p, n = compare_fields(code, en, params, c, c.y0, c.y1)
+            except Exception as e:
+                p, n = ["internal error %r" % (e,)], 0
+            fprob += p
+            pieces += n
+        if rpath is not None and not rprob:
+            try:
+                p = replay_reader(F, F.body(rpath), env, extra, c)
+            except Exception as e:
+                p = "internal error %r" % (e,)
+            if p:
+                rprob.append(p)
+            else:
+                replays += 1
+    return key, {"cells": len(r.cells), "raw_cells": raw, "pieces": pieces, "replays": replays, "field_problems": fprob[:2], "reader_problems": rprob[:2], "domain": dom_bad,
+                 "sample": [fmt_ev(e) for e in r.cells[min(3, len(r.cells) - 1)].events] if r.cells else []}
+
+
+_fcache = {}
+
+
+def evaluate_fields(F, fs, tier):
+    import multiprocessing as mp
+    _F[fs] = F
+    cfgs = field_configs(tier)
+    todo = [(fs,) + tuple(c) for c in cfgs if (fs, c[0]) not in _fcache]
+    if todo:
+        with mp.get_context("fork").Pool(min(16, len(todo))) as pool:
+            for key, res in pool.imap_unordered(_work_fields, todo, chunksize=1):
+                _fcache[(fs, key)] = res
+    return [(c, _fcache[(fs, c[0])]) for c in cfgs]
+
+
+def run_c04_fields(chk, F, fs, tier):
+    import refspec
+    chk.rule("D3.spec", floor=1, doc="the field-level reference (sa/refspec.py, from the module docs) agrees with the bit-level reference definitions (sa/refcodes.py) and the documented examples")
+    probs = refspec.self_check()
+    chk.expect("D3.spec", "self_check", not probs, "refspec.py disagrees with refcodes.py / documented examples: %s" % probs[:5])
+    chk.rule("D3.fields", floor=100, doc="for every value of the domain (partition of [0, 2^64-1] into cells with one control path) the non-table writer emits exactly the documented fields: same primitives, same widths, and each field value equal modulo 2^width to the documented one as an affine function of n (gamma, delta, zeta_k, omega BE/LE, pi_k, Rice_k, minimal binary u)")
+    for cfg, r in evaluate_fields(F, fs, tier):
+        key = cfg[0]
+        if "unsupported" in r:
+            chk.bad("D3.fields", key, "writer %s cannot be evaluated: %s" % (key, r["unsupported"]))
+            continue
+        ok = not r["field_problems"] and r["pieces"] > 0 and not r["domain"]
+        chk.expect("D3.fields", key, ok, "%s: %s" % (key, "; ".join(r["field_problems"]) or r["domain"] or "no cell compared"),
+                   sample={"writer": key, "cells": r["cells"], "pieces_compared": r["pieces"], "example_emission": r["sample"]})
+
+
+def run_c03_roundtrip(chk, F, fs, tier):
+    chk.rule("K2.replay", floor=90, doc="round trip at the level of stream primitives, for every value: the reader of each code, interpreted on each cell with read_unary/read_bits answered by the primitives the writer emitted there (same order, same widths, low w bits), consumes all of them and returns exactly n (affine form 1*n+0): gamma, delta, zeta_k, pi_k, Rice_k, minimal binary u; both endiannesses; non-table paths")
+    for cfg, r in evaluate_fields(F, fs, tier):
+        key = cfg[0]
+        if cfg[4] is None:
+            continue
+        if "unsupported" in r:
+            chk.bad("K2.replay", key, "writer %s cannot be evaluated: %s" % (key, r["unsupported"]))
+            continue
+        ok = not r["reader_problems"] and r["replays"] > 0 and not r["domain"]
+        chk.expect("K2.replay", key, ok, "%s: %s" % (key, "; ".join(r["reader_problems"]) or r["domain"] or "no cell replayed"),
+                   sample={"code": key, "cells_replayed": r["replays"]})
